@@ -70,6 +70,16 @@ pub fn profile(name: &str) -> GenCfg {
             g.w_ops = [45, 10, 30, 15, 0, 0];
             g.av_latest_pct = 90;
         }
+        "mid" => {
+            // request bodies around the default limits of actix-web's extractors (256 KiB), far below the protocol's 100 MB
+            g.big_payload_pct = 45;
+            g.mid_payloads = true;
+            g.nops = (5, 9);
+            g.nclients = (1, 2);
+            g.w_ops = [45, 10, 30, 15, 0, 0];
+            g.av_latest_pct = 90;
+            g.final_walks = false;
+        }
         "long" => {
             g.nops = (60, 200);
         }
@@ -88,6 +98,8 @@ pub fn main(args: &Args) -> i32 {
     let first = args.num("first", 0) as usize;
     let cfgs = args.get("cfgs", "mixed");
     let proj = args.get("proj", "0") == "1";
+    // stall=1: every HTTP upload delivers the last chunk of its body two (virtual) hours after the rest
+    crate::ctx::STALL_ALL.store(args.get("stall", "0") == "1", std::sync::atomic::Ordering::SeqCst);
     let f = std::fs::File::create(&out_path).expect("cannot create output file");
     let mut w = BufWriter::new(f);
     let code = actix_rt::System::new().block_on(async {
